@@ -5,6 +5,18 @@
 (* every selector (FactoryOps.Cands over the generated registry).  The       *)
 (* driver writes the file, runs the command-line program and compares the    *)
 (* stored spectrum with the same graph built through the library.            *)
+(*                                                                           *)
+(* Two families of files:                                                    *)
+(*  A  every documented selector of every section (plain chemistry forms),   *)
+(*     no [Fitting] section;                                                 *)
+(*  B  the FORM of the [Chemistry] selector -- plain, the documented         *)
+(*     composite `makefree+file` (mixins.rst), a custom python_file class    *)
+(*     that is not a TaurexChemistry -- with the same two gas sub-sections   *)
+(*     and a [Fitting] section whose entries name the planet radius or the   *)
+(*     first fitting parameter of the first gas sub-section (chemistry.rst). *)
+(*     The gas sub-sections belong to the graph under every form             *)
+(*     (ChemFormAttachesGases: a class of the form provides addGas), and     *)
+(*     every [Fitting] entry reaches the optimizer (fit flag, mode, bounds). *)
 EXTENDS FactoryOps
 VARIABLE asm
 
@@ -21,8 +33,35 @@ Binnings == {"none", "flux", "simple"}
 One(kind, by, s) == LET c == Cands(kind, IF by = "value" THEN LowerOf(s) ELSE s)
                     IN  IF Cardinality(c) = 1 THEN (CHOOSE x \in c : TRUE).name ELSE ""
 
-Init == asm \in [temp : Temps, gas1 : Gases, gas2 : Gases, model : Models, press : Press, chem : Chems,
-                 contribs : ContribSets, binning : Binnings]
+\* ------------------------------------------------------- forms of the [Chemistry] selector
+PlainForm(s) == [form |-> "plain", sel |-> s, mix |-> ""]
+ChemForms == {PlainForm(s) : s \in Chems}
+             \cup UNION {{[form |-> "composite", sel |-> s, mix |-> MixinOf[e.id]] : s \in e.sels}
+                         : e \in {x \in Builtin : x.kind = "chemistry" /\ x.id \in DOMAIN MixinOf}}
+             \cup {[form |-> "custom", sel |-> "custom", mix |-> ""]}
+WrittenChem(f) == IF f.form = "composite" THEN f.mix \o "+" \o f.sel ELSE f.sel
+OneMixin(kind, s) == LET c == MixinCands(kind, LowerOf(s))
+                     IN  IF Cardinality(c) = 1 THEN (CHOOSE x \in c : TRUE).name ELSE ""
+\* the custom chemistry of the assemblies: the harness-written file whose class is NOT a TaurexChemistry
+AsmCustom == CHOOSE c \in CustomBases : c.kind = "chemistry" /\ c.file = "chemistry_duck"
+ChemBases(f) == CASE f.form = "plain"     -> <<One("chemistry", "value", f.sel)>>
+                  [] f.form = "composite" -> <<OneMixin("chemistry", f.mix), One("chemistry", "value", f.sel)>>
+                  [] OTHER                -> <<AsmCustom.name>>
+
+\* ------------------------------------------------------- [Fitting]
+\* first fitting parameter of a gas sub-section [[mol]] (chemistry.rst, "Fitting Parameters" of each gas type)
+GasFitParam(gsel, mol) == IF LowerOf(gsel) = "constant" THEN mol ELSE mol \o "_surface"
+FitEntries(kindf, gsel) ==
+    CASE kindf = "radius" -> <<[param |-> "planet_radius", fit |-> TRUE, mode |-> "linear", bounds |-> <<"0.5", "3">>, lo |-> <<1, 2>>, hi |-> <<3, 1>>]>>
+      [] kindf = "gas"    -> <<[param |-> GasFitParam(gsel, "H2O"), fit |-> TRUE, mode |-> "log", bounds |-> <<"1e-4", "1e-2">>, lo |-> <<1, 10000>>, hi |-> <<1, 100>>],
+                               [param |-> "planet_radius", fit |-> FALSE, mode |-> "linear", bounds |-> <<"0.5", "3">>, lo |-> <<1, 2>>, hi |-> <<3, 1>>]>>
+      [] OTHER            -> <<>>
+
+FamilyA == [temp : Temps, gas1 : Gases, gas2 : Gases, model : Models, press : Press, chem : {PlainForm(s) : s \in Chems},
+            contribs : ContribSets, binning : Binnings, fit : {"none"}]
+FamilyB == [temp : Temps, gas1 : Gases, gas2 : Gases, model : Models, press : {"simple"}, chem : ChemForms,
+            contribs : {<<"Absorption">>, <<"Absorption", "Rayleigh">>}, binning : {"none"}, fit : {"radius", "gas"}]
+Init == asm \in FamilyA \cup FamilyB
 Next == UNCHANGED asm
 Spec == Init /\ [][Next]_asm
 
@@ -32,12 +71,25 @@ AssemblyResolves ==
     /\ (("gas:" \o asm.gas1) \notin Waived) => One("gas", "value", asm.gas1) # ""
     /\ One("model", "value", asm.model) # ""
     /\ \A i \in 1..Len(asm.contribs) : One("contribution", "subsection", asm.contribs[i]) # ""
+    /\ \A i \in 1..Len(ChemBases(asm.chem)) : ChemBases(asm.chem)[i] # ""
+\* under every form of the selector the library can attach the gas sub-sections: they are part of the graph
+ChemFormAttachesGases ==
+    \E i \in 1..Len(ChemBases(asm.chem)) : ChemBases(asm.chem)[i] \in SubAdders
+\* the bounds of a [Fitting] entry are numbers of the value grammar, lower below upper
+FittingWellFormed ==
+    \A i \in 1..Len(FitEntries(asm.fit, asm.gas1)) :
+        LET e == FitEntries(asm.fit, asm.gas1)[i] IN
+        /\ Transform(Li(e.bounds)) = [t |-> "floatlist", v |-> <<e.lo, e.hi>>]
+        /\ e.lo[1] * e.hi[2] < e.hi[1] * e.lo[2]
 
 Emit == PrintT(<<"ASM", ToJson([temp |-> asm.temp, gas1 |-> asm.gas1, gas2 |-> asm.gas2, model |-> asm.model,
-                                 press |-> asm.press, chem |-> asm.chem, contribs |-> asm.contribs, binning |-> asm.binning,
+                                 press |-> asm.press, chem |-> WrittenChem(asm.chem), chemform |-> asm.chem.form,
+                                 contribs |-> asm.contribs, binning |-> asm.binning,
+                                 fit |-> asm.fit, fitting |-> FitEntries(asm.fit, asm.gas1),
                                  cls |-> [temp |-> One("temperature", "value", asm.temp),
                                           gas1 |-> One("gas", "value", asm.gas1), gas2 |-> One("gas", "value", asm.gas2),
                                           model |-> One("model", "value", asm.model), press |-> One("pressure", "value", asm.press),
-                                          chem |-> One("chemistry", "value", asm.chem),
+                                          chem |-> ChemBases(asm.chem)[Len(ChemBases(asm.chem))],
+                                          chembases |-> ChemBases(asm.chem),
                                           contribs |-> [i \in 1..Len(asm.contribs) |-> One("contribution", "subsection", asm.contribs[i])]]])>>)
 =============================================================================
